@@ -486,6 +486,9 @@ package jsonpath
 // C13/C12: Accessor values are built nowhere else, so the leafacc/value postconditions of these three functions cover every accessor a retrieval returns
 //@ readset accget C12 C13: Accessor.Get only in (*syntaxBasicNode).retrieveAnyValueNext, (*syntaxBasicNode).retrieveMapNext, (*syntaxBasicNode).retrieveListNext
 //@ readset accset C12 C13: Accessor.Set only in (*syntaxBasicNode).retrieveAnyValueNext, (*syntaxBasicNode).retrieveMapNext, (*syntaxBasicNode).retrieveListNext
+// the parser's own accessor-mode flag is set from the Config in Parse and nowhere else (so every node of one parse is built
+// under the same flag, and only updateAccessorMode switches operand and parameter paths to plain mode)
+//@ writeset parsermode C12 C19: jsonPathParser.accessorMode only in Parse
 //@ readset accmode C12: syntaxBasicNode.accessorMode only in (*syntaxBasicNode).retrieveAnyValueNext, (*syntaxBasicNode).retrieveMapNext, (*syntaxBasicNode).retrieveListNext, (*syntaxBasicNode).setAccessorMode, (*jsonPathParser).*
 
 //@ func (*syntaxBasicNode).addDeepestError
@@ -499,24 +502,24 @@ package jsonpath
 //@   pure
 
 //@ func (*syntaxRootIdentifier).retrieve
-//@   props C01 C08 C03 C04 C05 C06 C20
+//@   props C01 C08 C03 C04 C05 C06 C20 C12 C13
 //@   implements syntaxNode.retrieve
 //@   unfold WFnode(this) ==> WFrootDef(i)
 
 //@ func (*syntaxCurrentRootIdentifier).retrieve
-//@   props C01 C08 C03 C04 C05 C06 C20
+//@   props C01 C08 C03 C04 C05 C06 C20 C12 C13
 //@   implements syntaxNode.retrieve
 //@   unfold WFnode(this) ==> WFcurrentDef(i)
 
 //@ func (*syntaxChildSingleIdentifier).retrieve
-//@   props C01 C08 C03 C04 C05 C06 C20 C15 C16
+//@   props C01 C08 C03 C04 C05 C06 C20 C15 C16 C12 C13
 //@   implements syntaxNode.retrieve
 //@   unfold WFnode(this) ==> WFsingleDef(i)
 //@   ensures mismatch: !isType(current, map[string]interface{}) ==> mismatch(ret, i.errorRuntime, "object", current) && len(container.result) == old(len(container.result))
 //@   before retrieveMapNext#1 assert key: arg3 == i.identifier && arg2 == asType(current, map[string]interface{})
 
 //@ func (*syntaxFilterFunction).retrieve
-//@   props C01 C08 C03 C04 C05 C06 C20 C14
+//@   props C01 C08 C03 C04 C05 C06 C20 C14 C12 C13
 //@   implements syntaxNode.retrieve
 //@   unfold WFnode(this) ==> WFffuncDef(f)
 //@   before func#1 assert arg: arg0 == current
@@ -525,7 +528,7 @@ package jsonpath
 //@   ensures leaf: ffErr(f.function, current) == nil && f.next == nil && !f.accessorMode ==> ret == nil && len(container.result) == old(len(container.result)) + 1 && elemAt(container.result, old(len(container.result))) == ffRes(f.function, current)
 
 //@ func (*syntaxAggregateFunction).retrieve
-//@   props C03 C04 C05 C06 C20 C14
+//@   props C03 C04 C05 C06 C20 C14 C12 C13
 //@   implements syntaxNode.retrieve
 //@   unfold WFnode(this) ==> WFafuncDef(f)
 // the aggregate sees the whole list of values its parameter path produced, or the elements of the single array
@@ -551,13 +554,13 @@ package jsonpath
 //@   assume len(ret) == IXn(this, srcLength) && (forall k {ret[k]} {IXv(this, srcLength, k)} :: 0 <= k && k < len(ret) ==> ret[k] == IXv(this, srcLength, k))
 
 //@ func (*syntaxChildWildcardIdentifier).retrieve
-//@   props C01 C08 C03 C04 C05 C06 C20 C15
+//@   props C01 C08 C03 C04 C05 C06 C20 C15 C12 C13
 //@   implements syntaxNode.retrieve
 //@   unfold WFnode(this) ==> WFwildcardDef(i)
 //@   ensures mismatch: !isType(current, map[string]interface{}) && !isType(current, []interface{}) ==> mismatch(ret, i.errorRuntime, "object/array", current) && len(container.result) == old(len(container.result))
 
 //@ func (*syntaxChildWildcardIdentifier).retrieveMap
-//@   props C01 C08 C03 C04 C05 C06 C07 C20
+//@   props C01 C08 C03 C04 C05 C06 C07 C20 C12 C13
 //@   requires i != nil && WFbasic(i.syntaxBasicNode) && errRT(i.syntaxBasicNode)
 //@   include retrieveFrame
 //@   decreases 3*hgt(i.syntaxBasicNode) + 1
@@ -572,7 +575,7 @@ package jsonpath
 
 //@ spec sumLof(b *syntaxBasicNode, r any, s []interface{}, j int) int = sumL(b, r, A_Val[arr(s)], off(s), j)
 //@ func (*syntaxChildWildcardIdentifier).retrieveList
-//@   props C01 C08 C03 C04 C05 C06 C07 C20
+//@   props C01 C08 C03 C04 C05 C06 C07 C20 C12 C13
 //@   requires i != nil && WFbasic(i.syntaxBasicNode) && errRT(i.syntaxBasicNode) && docArr(srcList) && wf(srcList)
 //@   include retrieveFrame
 //@   decreases 3*hgt(i.syntaxBasicNode) + 1
@@ -585,14 +588,14 @@ package jsonpath
 //@   loop 1 invariant mono: Kok(i.syntaxBasicNode) ==> (forall t {sumLof(i.syntaxBasicNode, root, srcList, t)} :: 0 <= t && t <= rangeindex1 ==> 0 <= sumLof(i.syntaxBasicNode, root, srcList, t) && sumLof(i.syntaxBasicNode, root, srcList, t) + Kn(i.syntaxBasicNode, root, A_Val[arr(srcList)][idxOf(off(srcList), t)]) <= len(container.result) - old(len(container.result)))
 
 //@ func (*syntaxChildMultiIdentifier).retrieve
-//@   props C01 C08 C03 C04 C05 C06 C20 C15
+//@   props C01 C08 C03 C04 C05 C06 C20 C15 C12 C13
 //@   implements syntaxNode.retrieve
 //@   unfold WFnode(this) ==> WFmultiDef(i)
 //@   ensures mismatch: !isType(current, map[string]interface{}) && !(i.isAllWildcard && isType(current, []interface{})) ==> mismatch(ret, i.errorRuntime, "object", current) && len(container.result) == old(len(container.result))
 
 //@ spec identAt(i *syntaxChildMultiIdentifier, t int) any = A_Val[arr(i.identifiers)][idxOf(off(i.identifiers), t)]
 //@ func (*syntaxChildMultiIdentifier).retrieveMap
-//@   props C01 C08 C03 C04 C05 C06 C07 C20
+//@   props C01 C08 C03 C04 C05 C06 C07 C20 C12 C13
 //@   requires WFmultiDef(i)
 //@   include retrieveFrame
 //@   decreases 3*height(i) + 1
@@ -605,7 +608,7 @@ package jsonpath
 //@   loop 1 invariant mono: RLok(i) ==> (forall t {sumXof(root, srcMap, i.identifiers, t)} :: 0 <= t && t <= rangeindex1 ==> 0 <= sumXof(root, srcMap, i.identifiers, t) && sumXof(root, srcMap, i.identifiers, t) + RLn(identAt(i, t), root, srcMap) <= len(container.result) - old(len(container.result)))
 
 //@ func (*syntaxUnionQualifier).retrieve
-//@   props C01 C08 C03 C04 C05 C06 C07 C11 C20 C15
+//@   props C01 C08 C03 C04 C05 C06 C07 C11 C20 C15 C12 C13
 //@   implements syntaxNode.retrieve
 //@   unfold WFnode(this) ==> WFunionDef(u)
 //@   ensures mismatch: !isType(current, []interface{}) ==> mismatch(ret, u.errorRuntime, "array", current) && len(container.result) == old(len(container.result))
@@ -627,7 +630,7 @@ package jsonpath
 //@   loop 2 invariant bufInv(container) && errInv(deepestTextLen, deepestError) && wf(rangeslice2) && mine(rangeslice2) && arr(rangeslice2) != arr(container.result) && (forall k {elemAt(rangeslice2, k)} :: off(rangeslice2) <= k && k < off(rangeslice2) + len(rangeslice2) ==> 0 <= elemAt(rangeslice2, k) && elemAt(rangeslice2, k) < len(srcArray))
 
 //@ func (*syntaxRecursiveChildIdentifier).retrieve
-//@   props C03 C04 C05 C06 C07 C20 C15
+//@   props C03 C04 C05 C06 C07 C20 C15 C12 C13
 //@   implements syntaxNode.retrieve
 //@   unfold WFnode(this) ==> WFrecursiveDef(i)
 //@   ensures mismatch: !isType(current, map[string]interface{}) && !isType(current, []interface{}) ==> mismatch(ret, i.errorRuntime, "object/array", current) && len(container.result) == old(len(container.result))
@@ -960,14 +963,14 @@ package jsonpath
 //@   loop 1 invariant none: !hasValue ==> (forall j {elemAt(computedList, j)} :: 0 <= j && j <= rangeindex ==> elemAt(computedList, j) == emptyEntity)
 
 //@ func (*syntaxFilterQualifier).retrieve
-//@   props C01 C08 C03 C04 C05 C06 C20 C15
+//@   props C01 C08 C03 C04 C05 C06 C20 C15 C12 C13
 //@   implements syntaxNode.retrieve
 //@   unfold WFnode(this) ==> WFfilterDef(f)
 //@   ensures mismatch: !isType(current, map[string]interface{}) && !isType(current, []interface{}) ==> mismatch(ret, f.errorRuntime, "object/array", current) && len(container.result) == old(len(container.result))
 
 //@ spec keysEnum(keys []string, m map[string]interface{}) bool = len(keys) == len(m) && (forall t {keys[t]} {skey(M_dom[m], t)} :: 0 <= t && t < len(keys) ==> keys[t] == skey(M_dom[m], t) && has(m, keys[t]))
 //@ func (*syntaxFilterQualifier).retrieveMap
-//@   props C01 C08 C03 C04 C05 C06 C07 C20
+//@   props C01 C08 C03 C04 C05 C06 C07 C20 C12 C13
 //@   requires WFfilterDef(f)
 //@   include retrieveFrame
 //@   decreases 3*height(f) + 1
@@ -990,7 +993,7 @@ package jsonpath
 //@   loop 2 invariant mono: Kok(f.syntaxBasicNode) ==> (forall t {sumFMof(f.query, f.syntaxBasicNode, root, srcMap, t)} :: 0 <= t && t <= rangeindex2 ==> 0 <= sumFMof(f.query, f.syntaxBasicNode, root, srcMap, t) && sumFMof(f.query, f.syntaxBasicNode, root, srcMap, t) + (RHmap(f.query, root, srcMap, t) ? Kn(f.syntaxBasicNode, root, memAt(srcMap, t)) : 0) <= len(container.result) - old(len(container.result)))
 
 //@ func (*syntaxFilterQualifier).retrieveList
-//@   props C01 C08 C03 C04 C05 C06 C07 C20
+//@   props C01 C08 C03 C04 C05 C06 C07 C20 C12 C13
 //@   requires WFfilterDef(f) && docArr(srcList) && wf(srcList)
 //@   include retrieveFrame
 //@   decreases 3*height(f) + 1
@@ -1320,7 +1323,9 @@ package jsonpath
 //@   ensures built: isType(asType(topParam(p), *syntaxLogicalNot).query, *syntaxBasicCompareQuery) && eqBuilt(asType(asType(topParam(p), *syntaxLogicalNot).query, *syntaxBasicCompareQuery), leftParam, rightParam, old(litVal(leftParam)), old(litVal(rightParam)))
 
 //@ func (*jsonPathParser).pushCompareParameterCurrentRoot
-//@   props C02 C19
+//@   props C02 C19 C12
+// C12: a path used as a filter operand delivers plain values: accessor mode is switched off along it
+//@   before updateAccessorMode#1 assert plainoperand: arg1 == node && arg2 == false
 //@   parsetime
 //@   requires p != nil
 //@   requires node != nil ==> PN(node)
@@ -1331,7 +1336,9 @@ package jsonpath
 //@   requires p != nil
 
 //@ func (*jsonPathParser).pushCompareParameterRoot
-//@   props C02 C19
+//@   props C02 C19 C12
+// C12: a path used as a filter operand delivers plain values: accessor mode is switched off along it
+//@   before updateAccessorMode#1 assert plainoperand: arg1 == node && arg2 == false
 //@   parsetime
 //@   requires p != nil
 //@   requires node != nil ==> PN(node)
